@@ -19,6 +19,7 @@ Contains the PUBO class. See ``help(qubovert.PUBO)``.
 """
 
 from collections import defaultdict
+import os  # only used by the JTIOSUE_QUBOVERT_VERIF verification hook
 from .utils import BO, PUBOMatrix, QUBOMatrix
 from . import QUBO
 # in PUBO._reduce_degree, we use PCBO.add_constraint_AND. But PCBO inherits
@@ -245,7 +246,13 @@ class PUBO(BO, PUBOMatrix):
 
         # do the reductions
         reductions = {}
+        # verification hook, off unless JTIOSUE_QUBOVERT_VERIF=1: record a
+        # per-term reduction certificate and attach it to D.
+        _verif = os.environ.get("JTIOSUE_QUBOVERT_VERIF") == "1"
+        _verif_cert = []
         for key, v in mapped_self.items():
+            if _verif:
+                _verif_rec = {"key": key, "coef": v, "subs": []}
             # find a reduction if len(key) > deg
             while len(key) > deg:
                 # find a variable pair in k that has already been reduced.
@@ -291,6 +298,9 @@ class PUBO(BO, PUBOMatrix):
                 D += qv.PCBO().add_constraint_eq_AND(
                     z, x, y, lam=func_lam(v)
                 )
+                if _verif:
+                    _verif_rec["subs"].append(
+                        (x, y, z, not previously_used, func_lam(v)))
 
                 # key is sorted, but it is not necessarily the case that
                 # z > all of the other elements in key. So let's efficiently
@@ -309,6 +319,15 @@ class PUBO(BO, PUBOMatrix):
                     key += (z,)
 
             D[key] += v
+            if _verif:
+                _verif_rec["final"] = key
+                _verif_cert.append(_verif_rec)
+
+        if _verif:
+            D._verif_reduction_certificate = {
+                "n": self.num_binary_variables, "deg": deg,
+                "terms": _verif_cert
+            }
 
     def to_pubo(self, deg=None, lam=None, pairs=None):
         """to_pubo.
